@@ -3,4 +3,5 @@ INVARIANT TypeOK
 INVARIANT NoSharedSecret
 INVARIANT NoNonceReuse
 INVARIANT ReconfiguredFresh
+INVARIANT PartsFresh
 CHECK_DEADLOCK FALSE
